@@ -91,7 +91,7 @@ def gen_api(tier, seed):
                 if r < 0.5:
                     ops.append("n:%s" % hexs(n))
                 elif r < 0.65 and last is not None:
-                    ops.append("s:%s:%d" % (hexs(n), last + rnd.choice((-1, 0, 0, 1))))
+                    ops.append("s:%s:%d" % (hexs(n), max(-P63, min(P63 - 1, last + rnd.choice((-1, 0, 0, 1))))))
                 else:
                     last = rnd.choice(pool)
                     ops.append("s:%s:%d" % (hexs(n), last))
